@@ -134,10 +134,16 @@ def enabled(w: World, tier: str) -> list[tuple]:
         elif t.state == TrialState.WAITING:
             ops += [("claim", "A", t._trial_id), ("claim", "B", t._trial_id)]
     ops += [("read", "A", 0), ("read", "A", 1), ("read", "B", 0)]
+    # point reads through A ITSELF (the oracle reads through a clone): a read that leaves something
+    # behind in the cache is a state change like any other
+    for t in trials[:(2 if tier == "thorough" else 1)]:
+        ops += [("lookup", "A", t._trial_id)]
     ops += [("recreate", "R", 0)]
     # the cached client deletes and re-creates the study itself: its own delete must leave no cache
     # entry behind (SQLite re-issues the ids)
     ops += [("recreate", "A", 0)]
+    # the study with the LARGEST id: SQLite re-issues exactly that id to the re-created study
+    ops += [("recreate", "A", 1), ("recreate", "R", 1)]
     return ops
 
 
@@ -162,14 +168,19 @@ def apply(w: World, op: tuple) -> None:
         c.set_trial_state_values(arg, TrialState.RUNNING)
     elif k == "read":
         c.get_all_trials(w.sids[arg], deepcopy=False)
+    elif k == "lookup":
+        t = w.R.get_trial(arg)
+        sid = next(s for s in w.sids if any(x._trial_id == arg for x in w.R.get_all_trials(s, deepcopy=False)))
+        c.get_trial_id_from_study_id_trial_number(sid, t.number)
+        c.get_trial(arg)
     elif k == "recreate":
         # a foreign client deletes study 1 and creates it again (SQLite re-issues ids)
-        old = w.sids[0]
+        old = w.sids[arg]
         c.delete_study(old)
         w.dead_sids.append(old)
         if who != "A":
             w.foreign_delete = True
-        w.sids[0] = c.create_new_study([MAX], "S1b")
+        w.sids[arg] = c.create_new_study([MAX], f"S{arg + 1}b")
     else:
         raise ValueError(op)
 
@@ -269,7 +280,9 @@ def compare(w: World, part: Part, hist: list, config: str) -> bool:
 def digest(w: World) -> Any:
     from .canon import state_digest
 
-    parts = [state_digest([vars(w.A).get("_studies"), vars(w.A).get("_trial_id_to_study_id_and_number"),
+    # every cache field of A (a field left out here merges states that differ in it: a lookup that
+    # only fills the number->id map would look like a no-op and never be extended)
+    parts = [state_digest([{k: v for k, v in sorted(vars(w.A).items()) if k not in ("_backend", "_lock", "_stub", "_channel", "_cache")},
                            getattr(getattr(w.A, "_cache", None), "studies", None)]),
              state_digest([vars(w.B).get("_studies"), getattr(getattr(w.B, "_cache", None), "studies", None)])]
     if w.path:
